@@ -166,6 +166,7 @@ class Exec:
         self.pc = []
         self.pending = []
         self.consumed = []
+        self.pure = False
         self._qmemo = {}
         self._pcsat = {}
         self.trace = []
@@ -242,6 +243,8 @@ class Exec:
         """Fork on a z3 Bool; returns the Python bool taken on this path."""
         if isinstance(cond, bool):
             return cond
+        if self.pure:
+            raise Unsupported("control flow inside a comprehension condition")
         cond = z3.simplify(cond)
         if z3.is_true(cond):
             return True
@@ -411,6 +414,8 @@ class Exec:
     def hashable_or_raise(self, t, where):
         """Using t as a dict key / set element raises TypeError when it is unhashable."""
         c = self.c
+        if self.pure:
+            return  # inside a comprehension over dict keys / set elements: hashable by construction
         if not self.branch(c.hashable(t)):
             raise SymRaise("TypeError", where)
 
@@ -451,7 +456,7 @@ class Exec:
         net.f["_net_attr"] = VAttr(fr("neth", c.SetId), fr("netv", c.MapVal))
         net.f["_edge_uid"] = VCounter(fr("uid", z3.IntSort()))
         net.frozen_flag = fr("frozen", z3.BoolSort())
-        net.shadow = Shadow(name, True)
+        net.shadow = Shadow(net.frozen_flag, extract.freeze_names(kind))
         self.keys_hashable(net)
         return net
 
@@ -478,7 +483,7 @@ class Exec:
         net.f["_net_attr"] = VAttr(c.EMPTY, c.fresh("j", c.MapVal))
         net.f["_edge_uid"] = VCounter(z3.IntVal(0))
         net.frozen_flag = z3.BoolVal(False)
-        net.shadow = Shadow("new", False)
+        net.shadow = Shadow(net.frozen_flag, extract.freeze_names(kind))
         return net
 
     def havoc_net(self, net, fields=None):
@@ -516,6 +521,8 @@ class Exec:
             return VAttr(c.fresh(name + "_h", c.SetId), c.fresh(name + "_v", c.MapVal))
         if ty == "set":
             return VSet(c.fresh(name, c.SetId))
+        if ty == "fset":
+            return VSet(c.fresh(name, c.SetId), frozen=True)
         raise Unsupported("param type %s" % ty)
 
     # ------------------------------------------------------------------ model extraction (mode g)
@@ -813,6 +820,7 @@ class Exec:
                 return
             if name == "frozen":
                 obj.frozen_flag = self.truth(v)
+                obj.shadow.flag = obj.frozen_flag
                 return
             # instance attribute (freeze installs `frozen` over method names)
             if isinstance(v, VBuiltin) and v.name == "frozen":
@@ -964,6 +972,7 @@ class Exec:
             v.ln = c.fresh("h_len", z3.IntSort())
             self.assume(v.ln >= 0)
             v.elem = c.fresh("h_el", c.SeqId)
+            v.content = c.fresh("h_lc", c.SetId)
         elif isinstance(v, VDict):
             v.keys = c.fresh("h_k", c.SetId)
             for k in list(v.fields):
@@ -1017,7 +1026,7 @@ class Exec:
             return v.d.keys, True, "values", v
         if isinstance(v, VList) and v.items is None:
             if getattr(v, "content", None) is not None:
-                return v.content, False, "plain", None
+                return v.content, bool(getattr(v, "distinct", False)), "plain", None
             return None, False, "seq", v
         from .builtins import VValItems
         if isinstance(v, VValItems):
@@ -1120,10 +1129,31 @@ class Exec:
             return
 
     def list_extend(self, lst, other):
+        c = self.c
         if lst.items is not None and isinstance(other, (VList, VTuple)) and other.items is not None:
             lst.items.extend(other.items)
             return
-        raise Unsupported("list.extend with abstract operand")
+        # abstract: only the *set of elements* of the list is tracked
+        if lst.items is not None:
+            cont = c.EMPTY
+            for it in lst.items:
+                cont = c.add(cont, self.tid(it))
+            lst.items = None
+            lst.ln = c.fresh("len", z3.IntSort())
+            lst.elem = c.fresh("el", c.SeqId)
+            lst.content = cont
+        if getattr(lst, "content", None) is None:
+            raise Unsupported("list.extend on a list whose content is unknown")
+        if isinstance(other, VVal):
+            c.val(other.term)
+            if not self.branch(c.iterable(other.term)):
+                raise SymRaise("TypeError", self.where(self.cur))
+            lst.content = c.union(lst.content, self.consume(other.term))
+        elif isinstance(other, VList) and getattr(other, "content", None) is not None:
+            lst.content = c.union(lst.content, other.content)
+        else:
+            raise Unsupported("list.extend with %s" % type(other).__name__)
+        lst.ln = c.fresh("len", z3.IntSort())
 
     def for_range(self, node, rng, env):
         raise Unsupported("for over range")
@@ -1280,6 +1310,18 @@ class Exec:
     def ev_GeneratorExp(self, e, env):
         return VGen(e, env)
 
+    def ev_ListComp(self, e, env):
+        from .comprehend import listcomp
+        return listcomp(self, e, env)
+
+    def ev_SetComp(self, e, env):
+        from .comprehend import setcomp
+        return setcomp(self, e, env)
+
+    def ev_DictComp(self, e, env):
+        from .comprehend import dictcomp
+        return dictcomp(self, e, env)
+
     def ev_IfExp(self, e, env):
         if self.cond(e.test, env):
             return self.ev(e.body, env)
@@ -1335,7 +1377,9 @@ class Exec:
             av = a.term if isinstance(a, VVal) else None
             bv = b.term if isinstance(b, VVal) else None
             t = av if av is not None else bv
-            if not self.branch(c.intlike(t)):
+            if self.pure:
+                self.pure_needs.append((c.intlike(t), "TypeError"))
+            elif not self.branch(c.intlike(t)):
                 raise Unsupported("arithmetic on non-integer value")
             x, y = self.tint(a), self.tint(b)
             if isinstance(op, ast.Add):
@@ -1370,6 +1414,10 @@ class Exec:
                 r = self.is_none_term(a)
             elif isinstance(a, VVal) and a.term.eq(c.NONE):
                 r = self.is_none_term(b)
+            elif isinstance(a, VIter) and isinstance(b, VVal) and a.src.eq(b.term):
+                r = c.one_shot(b.term)  # iter(x) is x exactly for iterators (one-shot iterables)
+            elif isinstance(a, (VSet, VDict, VList, VAttr)) and isinstance(b, VVal):
+                r = z3.BoolVal(False)
             else:
                 raise Unsupported("`is` on non-None")
             return r if isinstance(op, ast.Is) else z3.Not(r)
@@ -1551,12 +1599,17 @@ class Exec:
             return a
         if d.valkind == "val":
             return VVal(self.c.val(z3.Select(d.fields["v"], k)))
+        if d.valkind == "int":
+            return VInt(z3.Select(d.fields["v"], k))
         raise Unsupported("dict value kind %s" % d.valkind)
 
     def getitem(self, obj, key, w):
         c = self.c
         if isinstance(obj, VDict):
             k = self.key_term(key, w)
+            if self.pure:
+                self.pure_needs.append((z3.Select(obj.keys, k), "IDNotFound" if obj.kind == "iddict" else "KeyError"))
+                return self.dict_value(obj, k)
             if not self.branch(z3.Select(obj.keys, k)):
                 raise SymRaise("IDNotFound" if obj.kind == "iddict" else "KeyError", w)
             return self.dict_value(obj, k)
@@ -1887,8 +1940,13 @@ class Exec:
             if isinstance(v, VAttr):
                 return v
             raise Unsupported("kwattr argument of type %s" % type(v).__name__)
-        if ty == "set":
-            return v
+        if ty in ("set", "fset"):
+            if isinstance(v, VSet):
+                return v
+            if isinstance(v, VVal):
+                # a frozenset-valued Val handed where the callee's contract sees a set object
+                return VSet(c.content(v.term), frozen=True)
+            raise Unsupported("argument %s=%s for %s" % (name, type(v).__name__, spec.qual))
         raise Unsupported("param type %s" % ty)
 
     def abstract_iterable(self, v):
@@ -1917,6 +1975,11 @@ class Exec:
             return VInt(c.fresh("res", z3.IntSort()))
         if r == "set":
             return VSet(c.fresh("res", c.SetId))
+        if r == "list":
+            l = VList(None, c.fresh("reslen", z3.IntSort()), c.fresh("resel", c.SeqId))
+            l.content = c.fresh("rescont", c.SetId)
+            l.distinct = True
+            return l
         if r.startswith("net:"):
             return self.new_net(r[4:], "res")
         if r.startswith("param:"):
